@@ -40,7 +40,8 @@ HasSKE(h) == h.kx \in {"ecc", "ecdhe"}
 \* with verification off: the client needs an SM2 key of the right usage); TLS: an extended key usage that excludes servers
 \* "lookalike_root": self-signed, with the subject and the key identifier of the root the client trusts, but another key;
 \* "noipsan": the client addresses the server by an IP literal and the (otherwise good) certificate names no IP address
-CertKinds(h) == {"good", "untrusted", "expired", "notyet", "wrongname", "lookalike_root", "noipsan"} \cup (IF Dual(h) THEN {"rsa", "wrongusage"} ELSE {"wrongeku"})
+\* "cn_not_san": the subject's common name is the requested name while the subjectAltName extension names another host
+CertKinds(h) == {"good", "untrusted", "expired", "notyet", "wrongname", "lookalike_root", "noipsan", "cn_not_san"} \cup (IF Dual(h) THEN {"rsa", "wrongusage"} ELSE {"wrongeku"})
 HonestOf(h) == {h, [h EXCEPT !.verify = FALSE]} \cup {[h EXCEPT !.policy = p] : p \in Policies}
 \* "valid at the configured time": both endpoints may run on a configured clock (Config.Time) instead of the wall clock.
 \* clock = "ahead": the configured time lies ten days after the wall clock.  Certificate kinds by validity period:
